@@ -342,7 +342,6 @@ func c09Gen(t *rapid.T) c09Case {
 	return c
 }
 
-
 // ---- leak lane: discarded frames still count for flow control ------------------
 //
 // One offence repeated on stream after stream, each followed by DATA that a
@@ -352,7 +351,7 @@ func c09Gen(t *rapid.T) c09Case {
 // exceeds it; if discarded octets are not handed back, the ledger runs dry.
 
 type c09LeakCase struct {
-	Off       string `json:"off"`        // malformed | toobig | toobig-cl | refused
+	Off       string `json:"off"`        // malformed | toobig | toobig-cl | refused | cl-over
 	Chunk     int    `json:"chunk"`      // data octets per in-flight frame
 	Pad       int    `json:"pad"`        // 0 = unpadded, else pad length + 1
 	PerStream int    `json:"per_stream"` // flow-controlled octets in flight per offending stream
@@ -360,7 +359,7 @@ type c09LeakCase struct {
 	Windows   int    `json:"windows"`    // tenths of the initial connection window to move in total
 }
 
-var c09LeakOffs = []string{"malformed", "toobig", "toobig-cl", "refused"}
+var c09LeakOffs = []string{"malformed", "toobig", "toobig-cl", "refused", "cl-over"}
 
 func c09LeakRun(c c09LeakCase) Outcome {
 	const maxStreams = 3
@@ -425,11 +424,15 @@ func c09LeakRun(c c09LeakCase) Outcome {
 		cost += int64(c.Pad)
 	}
 	payload := make([]byte, c.Chunk)
-	frame := func(sid uint32) []byte {
-		if c.Pad > 0 {
-			return rawframe.Append(nil, rawframe.Data, rawframe.FlagPadded, sid, rawframe.Padded(payload, c.Pad-1, 0))
+	frame := func(sid uint32, last bool) []byte {
+		var fl byte
+		if last {
+			fl = rawframe.FlagEndStream
 		}
-		return rawframe.Append(nil, rawframe.Data, 0, sid, payload)
+		if c.Pad > 0 {
+			return rawframe.Append(nil, rawframe.Data, fl|rawframe.FlagPadded, sid, rawframe.Padded(payload, c.Pad-1, 0))
+		}
+		return rawframe.Append(nil, rawframe.Data, fl, sid, payload)
 	}
 	target := startConn * int64(c.Windows) / 10
 	rounds, offending, frames := 0, 0, 0
@@ -465,6 +468,27 @@ func c09LeakRun(c c09LeakCase) Outcome {
 		id += 2
 		offending++
 		h.OpenStream(sid)
+		// how much goes in flight on this stream
+		budget := avail
+		if c.Off == "toobig" {
+			budget -= c09MaxBody + 1
+		}
+		if ps := int64(c.PerStream); ps < budget {
+			if ps < cost {
+				ps = cost // at least one frame
+			}
+			budget = ps
+		}
+		if streamInit < budget {
+			budget = streamInit
+		}
+		if target-sent+cost < budget {
+			budget = target - sent + cost
+		}
+		nFrames := int(budget / cost)
+		if nFrames > 20000 {
+			nFrames = 20000
+		}
 		r := simpleReq(fmt.Sprintf("off%d", rounds))
 		r.Method = "POST"
 		list := r.HeaderList()
@@ -473,31 +497,29 @@ func c09LeakRun(c c09LeakCase) Outcome {
 			list = append(list, peer.FieldSpec{F: refhpack.Field{Name: "connection", Value: "close"}, R: refhpack.Rep{Kind: 2}})
 		case "toobig-cl":
 			list = append(list, peer.FieldSpec{F: refhpack.Field{Name: "content-length", Value: strconv.Itoa(c09MaxBody + 1)}, R: refhpack.Rep{Kind: 2, NameIdx: true}})
+		case "cl-over":
+			// the body is one octet longer than declared (or, when it carries no
+			// data at all, shorter); a body over the limit fails for that reason first
+			total, declared := nFrames*c.Chunk, 1
+			if total >= 1 && total <= c09MaxBody {
+				declared = total - 1
+			}
+			list = append(list, peer.FieldSpec{F: refhpack.Field{Name: "content-length", Value: strconv.Itoa(declared)}, R: refhpack.Rep{Kind: 2, NameIdx: true}})
 		}
 		block := h.EncodeBlock(nil, list)
 		for _, f := range peer.SplitBlock(sid, block, nil, false, 0, false, 0, false, 0) {
 			_ = h.Write(f)
 		}
-		budget := avail
 		if c.Off == "toobig" {
 			// the frame that takes the body over the limit; what follows is in flight
 			_ = h.Write(rawframe.Append(nil, rawframe.Data, 0, sid, make([]byte, c09MaxBody+1)))
 			sent += c09MaxBody + 1
-			budget -= c09MaxBody + 1
 		}
-		if int64(c.PerStream) < budget {
-			budget = int64(c.PerStream)
-		}
-		if streamInit < budget {
-			budget = streamInit
-		}
-		if target-sent+cost < budget {
-			budget = target - sent + cost
-		}
-		for n := 0; budget >= cost && n < 20000; n++ {
-			_ = h.Write(frame(sid))
+		for n := 0; n < nFrames; n++ {
+			// a body that does not match its declared length is only known to be
+			// wrong once it ends: its last frame carries END_STREAM
+			_ = h.Write(frame(sid, c.Off == "cl-over" && n == nFrames-1))
 			frames++
-			budget -= cost
 			sent += cost
 		}
 		if o := quiesce("after offending stream " + c.Off); o != nil {
@@ -554,8 +576,8 @@ func c09LeakRun(c c09LeakCase) Outcome {
 func c09LeakGen(t *rapid.T) c09LeakCase {
 	c := c09LeakCase{
 		Off:       rapid.SampledFrom(c09LeakOffs).Draw(t, "off"),
-		Chunk:     rapid.SampledFrom([]int{0, 1, 40, 300, 3000, 16000}).Draw(t, "chunk"),
-		PerStream: rapid.SampledFrom([]int{30000, 400000, 4000000}).Draw(t, "perstream"),
+		Chunk:     rapid.SampledFrom([]int{0, 1, 40, 300, 3000, 16000, 16000}).Draw(t, "chunk"),
+		PerStream: rapid.SampledFrom([]int{1, 1, 30000, 400000, 4000000}).Draw(t, "perstream"), // 1 = a single frame
 		GoodEvery: rapid.SampledFrom([]int{0, 2, 5}).Draw(t, "goodevery"),
 		Windows:   rapid.SampledFrom([]int{12, 22}).Draw(t, "windows"),
 	}
@@ -570,8 +592,8 @@ func c09LeakGen(t *rapid.T) c09LeakCase {
 
 func TestC09(t *testing.T) {
 	s := newSuite(t, "C09",
-		"2..7 requests on one connection (MaxConcurrentStreams 2..4, MaxRequestBodySize 2000), each either well-formed (some with gated handlers) or one of the stream-scoped offences {malformed field at a generated position, content-length smaller/larger than the body, body over the limit, declared length over the limit, stream over the concurrency limit (refused), peer RST_STREAM after the headers / mid-body / while the handler runs / while the response is window-blocked, handler panic, stream WINDOW_UPDATE overflow / zero}, optionally followed by frames written before the peer could have read the server's reaction (DATA, DATA+END_STREAM, WINDOW_UPDATE, trailers); all blocks draw their fields from a shared vocabulary so later blocks index entries inserted by earlier, possibly offending, blocks; blocks optionally split. Oracle: no GOAWAY/EOF; every well-formed request, before or after, gets the exchange oracle of C01; a final probe request indexing the whole vocabulary is served. Leak lane: one offence (malformed / body over the limit / declared length over the limit / refused) repeated on stream after stream, each followed by in-flight DATA (0..16000 octets per frame, padding 0..255) sent strictly within the windows the server advertised, until 1.2 or 2.2 initial connection windows have moved (or 60000 frames); oracle: at quiescence the sender's ledger still allows a MaxRequestBodySize upload (else conn-window-starved), no GOAWAY, interleaved uploads and the final probe are served. Non-trivial = at least one offence whose block carries vocabulary fields, or (leak lane) >=2 offending streams and more than one connection window moved; distinct by case hash.")
+		"2..7 requests on one connection (MaxConcurrentStreams 2..4, MaxRequestBodySize 2000), each either well-formed (some with gated handlers) or one of the stream-scoped offences {malformed field at a generated position, content-length smaller/larger than the body, body over the limit, declared length over the limit, stream over the concurrency limit (refused), peer RST_STREAM after the headers / mid-body / while the handler runs / while the response is window-blocked, handler panic, stream WINDOW_UPDATE overflow / zero}, optionally followed by frames written before the peer could have read the server's reaction (DATA, DATA+END_STREAM, WINDOW_UPDATE, trailers); all blocks draw their fields from a shared vocabulary so later blocks index entries inserted by earlier, possibly offending, blocks; blocks optionally split. Oracle: no GOAWAY/EOF; every well-formed request, before or after, gets the exchange oracle of C01; a final probe request indexing the whole vocabulary is served. Leak lane: one offence (malformed / body over the limit / declared length over the limit / refused / body longer than declared) repeated on stream after stream, each followed by in-flight DATA (0..16000 octets per frame, padding 0..255) sent strictly within the windows the server advertised, until 1.2 or 2.2 initial connection windows have moved (or 60000 frames); oracle: at quiescence the sender's ledger still allows a MaxRequestBodySize upload (else conn-window-starved), no GOAWAY, interleaved uploads and the final probe are served. Non-trivial = at least one offence whose block carries vocabulary fields, or (leak lane) >=2 offending streams and more than one connection window moved; distinct by case hash.")
 	defer s.finish()
 	runLane(s, Lane[c09Case]{Name: "offences", Journal: true, Quick: 4000, Thor: 2000000, Gen: c09Gen, Run: c09Run})
-	runLane(s, Lane[c09LeakCase]{Name: "leak", Journal: true, Quick: 24, Thor: 6000, Gen: c09LeakGen, Run: c09LeakRun})
+	runLane(s, Lane[c09LeakCase]{Name: "leak", Journal: true, Quick: 40, Thor: 6000, Gen: c09LeakGen, Run: c09LeakRun})
 }
